@@ -193,7 +193,7 @@ def gen_instants(ctx):
             for t in (b + d, b - d):
                 if TS_MIN <= t <= TS_MAX:
                     out.append((t, "boundary"))
-    n = 320 if not ctx.thorough else 9000
+    n = 220 if not ctx.thorough else 3000
     for i in range(n):
         k = rng.randrange(4)
         if k == 0:
@@ -228,7 +228,7 @@ def gen_durations(ctx):
                     out.append((t, "boundary"))
     for t in (-1500000, -1, -999999, -1000001, -500000, 1 << 53 | 1, -(1 << 53 | 1), DUR_MAX - 1, -DUR_MAX + 1, 15, 99, 100, 101):
         out.append((t, "boundary"))
-    n = 450 if not ctx.thorough else 9000
+    n = 300 if not ctx.thorough else 3000
     for i in range(n):
         k = rng.randrange(4)
         if k == 0:
@@ -458,7 +458,9 @@ def run(ctx):
         add(f"(let '(s, n) := from_datetime {cdt} in CL [CZ s; CZ n])", res(lambda: bp._Timestamp.from_datetime(dt), pair_cv),
             dict(d, op="from_datetime"))
         add(f"cres CB (bytes_ts {coq_z(fno)} {cdt})", res(lambda: bytes(M(f=dt)), cb), dict(d, op="bytes"))
-        add(f"cres CZ (len_ts {coq_z(fno)} {cdt})", res(lambda: len(M(f=dt)), cz), dict(d, op="len"))
+        nth = len(pairs) // 5
+        if ctx.thorough or nth % 3 == 0:  # the oracle compares len(m) with len(bytes(m)) on every value
+            add(f"cres CZ (len_ts {coq_z(fno)} {cdt})", res(lambda: len(M(f=dt)), cz), dict(d, op="len"))
         cal = cal_of(dt)
         add(f"cres (copt CB) (to_dict_ts {coq_bytes(cal.encode())} {cdt})", res(lambda: M(f=dt).to_dict().get("f"), opt_str),
             dict(d, op="to_dict"))
@@ -473,8 +475,9 @@ def run(ctx):
             dict(d, op="parse(bytes)", bytes=b.hex()))
         # sampled assumption: CPython's timedelta normal form and aware subtraction
         o = dt - EPOCH
-        add(f"CL [CZ (dt_sub {cdt} DATETIME_ZERO); CZ (td_days ({t})); CZ (td_seconds ({t})); CZ (td_microseconds ({t}))]",
-            cl([cz(o // US), cz(o.days), cz(o.seconds), cz(o.microseconds)]), dict(d, op="timedelta normal form (assumption)"))
+        if ctx.thorough or nth % 3 == 1:
+            add(f"CL [CZ (dt_sub {cdt} DATETIME_ZERO); CZ (td_days ({t})); CZ (td_seconds ({t})); CZ (td_microseconds ({t}))]",
+                cl([cz(o // US), cz(o.days), cz(o.seconds), cz(o.microseconds)]), dict(d, op="timedelta normal form (assumption)"))
     ctx.sample({"datetime": dts[len(dts) // 2][:3], "iso": mk_dt(*dts[len(dts) // 2][:2]).isoformat()})
 
     # ------------------------------------------------------------------ timedeltas
@@ -500,16 +503,20 @@ def run(ctx):
         add(f"(let '(s, n) := from_timedelta ({us}) in CL [CZ s; CZ n])", res(lambda: bp._Duration.from_timedelta(td), pair_cv),
             dict(d, op="from_timedelta"))
         add(f"cres CB (bytes_dur {coq_z(fno)} ({us}))", res(lambda: bytes(M(f=td)), cb), dict(d, op="bytes"))
-        add(f"cres CZ (len_dur {coq_z(fno)} ({us}))", res(lambda: len(M(f=td)), cz), dict(d, op="len"))
+        nth = len(pairs) // 5
+        if ctx.thorough or nth % 3 == 0:
+            add(f"cres CZ (len_dur {coq_z(fno)} ({us}))", res(lambda: len(M(f=td)), cz), dict(d, op="len"))
         add(f"copt CB (to_dict_dur ({us}))", res(lambda: M(f=td).to_dict().get("f"), opt_str), dict(d, op="to_dict"))
-        add(f"CB (delta_to_json ({us}))", res(lambda: bp._Duration.delta_to_json(td), lambda s: cb(s.encode())), dict(d, op="delta_to_json"))
+        if us == 0 or ctx.thorough:  # to_dict above goes through it for every other span
+            add(f"CB (delta_to_json ({us}))", res(lambda: bp._Duration.delta_to_json(td), lambda s: cb(s.encode())), dict(d, op="delta_to_json"))
         try:
             b = bytes(M(f=td))
         except Exception:  # noqa
             b = b""
         add(f"cres CZ (parse_dur {coq_z(fno)} {coq_bytes(b)})", res(lambda: M().parse(b).f // US, cz), dict(d, op="parse(bytes)", bytes=b.hex()))
-        add(f"CL [CZ (td_days ({us})); CZ (td_seconds ({us})); CZ (td_microseconds ({us}))]",
-            cl([cz(td.days), cz(td.seconds), cz(td.microseconds)]), dict(d, op="timedelta normal form (assumption)"))
+        if ctx.thorough or nth % 3 == 1:
+            add(f"CL [CZ (td_days ({us})); CZ (td_seconds ({us})); CZ (td_microseconds ({us}))]",
+                cl([cz(td.days), cz(td.seconds), cz(td.microseconds)]), dict(d, op="timedelta normal form (assumption)"))
         # from_dict of the strings both sides write
         strings = {res(lambda: bp._Duration.delta_to_json(td), lambda s: s)}
         if abs(us) <= DUR_MAX:
@@ -535,7 +542,7 @@ def run(ctx):
             {"kind": "duration-string", "string": s, "op": "from_dict"})
 
     # ------------------------------------------------------------------ crafted wire inputs
-    ncraft = 500 if not ctx.thorough else 6000
+    ncraft = 400 if not ctx.thorough else 5000
     sn_pool = [(0, 1), (0, -1), (0, 999), (0, -999), (0, 1500), (0, -1500), (0, 2500), (3, 999999999), (-3, -999999999), (-1, 500000000),
                (1, -500000000), (0, 999999000), ((1 << 63) - 1, 0), (-(1 << 63), 0), (0, (1 << 31) - 1), (0, -(1 << 31)),
                (253402300799, 999999999), (253402300800, 0), (-62135596800, 0), (-62135596801, 999999999), (86399999999999, 0),
@@ -565,7 +572,7 @@ def run(ctx):
     # ------------------------------------------------------------------ binary64 model of the pinned formulas vs CPython floats
     npin = 0
     for us, fno, tag in durs:
-        if tag == "random" and rng.random() < (0.55 if not ctx.thorough else 0.8):
+        if tag != "corpus" and rng.random() < (0.6 if not ctx.thorough else 0.8):
             continue
         if abs(us) > 10**19:
             continue
@@ -592,7 +599,7 @@ def run(ctx):
     t3_from = len(pairs)
     for wall, off, fno, tag in dts:
         t = wall - off
-        if off % 10**6 or (not ctx.thorough and rng.random() < (0.75 if tag != "corpus" else 0.9)):
+        if off % 10**6 or rng.random() < (0.8 if tag != "corpus" else 0.9):
             continue
         dt = mk_dt(wall, off)
         r = timestamp_pb2.Timestamp()
@@ -605,7 +612,7 @@ def run(ctx):
         r2.FromJsonString(js)
         add(f"copt CZ (ts_suffix_parse {coq_bytes(js[19:].encode())})", cz(r2.nanos // 1000), {"kind": "T3", "op": "Timestamp.FromJsonString fraction", "string": js})
         add(f"copt CZ (ts_suffix_parse {coq_bytes(js[19:].encode())})", cz(isoparse(js).microsecond), {"kind": "T3", "op": "isoparse fraction", "string": js})
-    for _ in range(150 if not ctx.thorough else 1500):
+    for _ in range(100 if not ctx.thorough else 1000):
         nn = rng.choice([rng.randrange(10**9), 1000 * rng.randrange(10**6), 10**6 * rng.randrange(1000), 0])
         sec = rng.randint(TS_MIN // 10**6, TS_MAX // 10**6)
         r = timestamp_pb2.Timestamp(seconds=sec, nanos=nn)
@@ -614,7 +621,7 @@ def run(ctx):
         add(f"copt CZ (ts_suffix_parse {coq_bytes(js[19:].encode())})", cz(isoparse(js).microsecond), {"kind": "T3", "op": "isoparse fraction (ns)", "string": js})
         add(f"CZ (ts_to_us ({sec}) ({nn}))", cz(inst(r.ToDatetime(tzinfo=timezone.utc))), {"kind": "T3", "op": "Timestamp.ToDatetime", "pair": [sec, nn]})
     for us, fno, tag in durs:
-        if abs(us) > DUR_MAX or (not ctx.thorough and tag != "corpus" and rng.random() < 0.6):
+        if abs(us) > DUR_MAX or (tag != "corpus" and rng.random() < 0.7):
             continue
         r = duration_pb2.Duration()
         r.FromTimedelta(timedelta(microseconds=us))
@@ -632,7 +639,7 @@ def run(ctx):
                     exp = CN
                 add(f"copt (fun p => CL [CZ (fst p); CZ (snd p)]) (dur_parse {coq_bytes(s.encode())})", exp,
                     {"kind": "T3", "op": "Duration.FromJsonString", "string": s})
-    for _ in range(150 if not ctx.thorough else 1500):
+    for _ in range(100 if not ctx.thorough else 1000):
         sec = rng.choice([0, rng.randint(0, DUR_MAX // 10**6 - 1), rng.randint(0, 100)])
         nn = rng.choice([rng.randrange(10**9), 1000 * rng.randrange(10**6), 10**6 * rng.randrange(1000), 0])
         if rng.random() < 0.5:
